@@ -1161,3 +1161,146 @@ func FlowsToReturn(v ssa.Value) bool {
 	}
 	return false
 }
+
+// MustDerive reports whether v derives from a value satisfying pred on
+// *every* alternative: at a φ all incoming edges must, at a load from a local
+// cell all stored values must (or the address itself derives from pred),
+// elsewhere one operand suffices. Cycles are resolved coinductively (a value
+// under evaluation counts as satisfied), which is right for loop-carried φs.
+func MustDerive(v ssa.Value, pred func(ssa.Value) bool, throughCalls bool) bool {
+	state := map[ssa.Value]int{} // 1 = in progress, 2 = true, 3 = false
+	var must func(v ssa.Value) bool
+	any := func(vs ...ssa.Value) bool {
+		for _, x := range vs {
+			if x != nil && must(x) {
+				return true
+			}
+		}
+		return false
+	}
+	must = func(v ssa.Value) bool {
+		if v == nil {
+			return false
+		}
+		switch state[v] {
+		case 1, 2:
+			return true
+		case 3:
+			return false
+		}
+		if pred(v) {
+			state[v] = 2
+			return true
+		}
+		state[v] = 1
+		res := false
+		switch v := v.(type) {
+		case *ssa.Phi:
+			res = true
+			for _, e := range v.Edges {
+				if !must(e) {
+					res = false
+					break
+				}
+			}
+		case *ssa.UnOp:
+			res = must(v.X)
+			if !res && v.Op == token.MUL {
+				if fn := v.Parent(); fn != nil {
+					var vals []ssa.Value
+					storesTo(fn, AddrKey(v.X), &vals, nil)
+					for _, an := range fn.AnonFuncs {
+						storesTo(an, AddrKey(v.X), &vals, nil)
+					}
+					if len(vals) > 0 {
+						res = true
+						for _, x := range vals {
+							if !must(x) {
+								res = false
+								break
+							}
+						}
+					}
+				}
+			}
+		case *ssa.BinOp:
+			res = any(v.X, v.Y)
+		case *ssa.ChangeType:
+			res = must(v.X)
+		case *ssa.Convert:
+			res = must(v.X)
+		case *ssa.MultiConvert:
+			res = must(v.X)
+		case *ssa.ChangeInterface:
+			res = must(v.X)
+		case *ssa.MakeInterface:
+			res = must(v.X)
+		case *ssa.TypeAssert:
+			res = must(v.X)
+		case *ssa.Extract:
+			res = must(v.Tuple)
+		case *ssa.FieldAddr:
+			res = must(v.X)
+		case *ssa.Field:
+			res = must(v.X)
+		case *ssa.IndexAddr:
+			res = must(v.X)
+		case *ssa.Index:
+			res = must(v.X)
+		case *ssa.Lookup:
+			res = must(v.X)
+		case *ssa.Slice:
+			res = must(v.X)
+		case *ssa.Next:
+			res = must(v.Iter)
+		case *ssa.Range:
+			res = must(v.X)
+		case *ssa.Call:
+			if throughCalls {
+				res = any(append([]ssa.Value{v.Call.Value}, v.Call.Args...)...)
+			}
+		case *ssa.Alloc:
+			// a varargs/complit cell: any stored element suffices when all stores are to distinct parts;
+			// conservatively require one store whose value must-derives and that is the only store to its part
+			if fn := v.Parent(); fn != nil {
+				byPart := map[string][]ssa.Value{}
+				for _, b := range fn.Blocks {
+					for _, in := range b.Instrs {
+						if st, ok := in.(*ssa.Store); ok {
+							k := AddrKey(st.Addr)
+							if k == AddrKey(v) || strings.HasPrefix(k, AddrKey(v)+".") || strings.HasPrefix(k, AddrKey(v)+"[") {
+								// index-addressed parts are distinguished by their constant index
+								part := k
+								if ia, ok := st.Addr.(*ssa.IndexAddr); ok {
+									part = k + ia.Index.String()
+								}
+								byPart[part] = append(byPart[part], st.Val)
+							}
+						}
+					}
+				}
+				for _, vals := range byPart {
+					all := true
+					for _, x := range vals {
+						if !must(x) {
+							all = false
+							break
+						}
+					}
+					if all && len(vals) > 0 {
+						res = true
+						break
+					}
+				}
+			}
+		}
+		if res {
+			// not cached: it may rest on the optimistic assumption about a value still under evaluation
+			delete(state, v)
+		} else {
+			state[v] = 3
+		}
+		return res
+	}
+	return must(v)
+}
